@@ -1879,9 +1879,13 @@ def linear_terms(ex, store):
     refs = sorted(expr.atoms(TabRef), key=lambda r: int(r.args[0]))
     syms = {r: sp.Symbol(f"__T{int(r.args[0])}") for r in refs}
     sub = expr.subs(syms)
-    poly = sp.Poly(sub, *syms.values())
+    try:
+        poly = sp.Poly(sub, *syms.values())
+    except sp.polys.polyerrors.PolynomialError:
+        raise KernelDefect(f"`{store.text}` is not a linear recurrence: its right-hand side divides by (or takes a non-polynomial function of) a table entry",
+                           store.node)
     if poly.total_degree() > 1:
-        raise AnalysisError(ex.rule, "right-hand side is not linear in the table references", store.func.where(store.node))
+        raise KernelDefect(f"`{store.text}` is not a linear recurrence: its right-hand side multiplies table entries with each other", store.node)
     terms = []
     const = sp.Integer(0)
     inv = {v: k for k, v in syms.items()}
